@@ -810,12 +810,7 @@ func funcASCIIDowncase(v any) any {
 	if !ok {
 		return &func0TypeError{"ascii_downcase", v}
 	}
-	return strings.Map(func(r rune) rune {
-		if 'A' <= r && r <= 'Z' {
-			return r + ('a' - 'A')
-		}
-		return r
-	}, s)
+	return mapASCII(s, 'A', 'Z', 'a'-'A')
 }
 
 func funcASCIIUpcase(v any) any {
@@ -823,12 +818,24 @@ func funcASCIIUpcase(v any) any {
 	if !ok {
 		return &func0TypeError{"ascii_upcase", v}
 	}
-	return strings.Map(func(r rune) rune {
-		if 'a' <= r && r <= 'z' {
-			return r - ('a' - 'A')
+	return mapASCII(s, 'a', 'z', 'A'-'a')
+}
+
+// mapASCII shifts the bytes from lo to hi and keeps the other bytes as they
+// are (strings.Map replaces the bytes of an invalid UTF-8 sequence).
+func mapASCII(s string, lo, hi byte, d int) string {
+	for i := 0; i < len(s); i++ {
+		if c := s[i]; lo <= c && c <= hi {
+			bs := []byte(s)
+			for ; i < len(bs); i++ {
+				if c := bs[i]; lo <= c && c <= hi {
+					bs[i] = byte(int(c) + d)
+				}
+			}
+			return string(bs)
 		}
-		return r
-	}, s)
+	}
+	return s
 }
 
 func funcToJSON(v any) any {
